@@ -196,6 +196,15 @@ def run (w : W) : List Op → W
   | [] => w
   | op :: r => run (step w op).1 r
 
+/-- `AbstractObjectStore.update(other)`, inherited by the file store: `for x in other: self.add(x)` - one `add` after the
+    other, the first exception ends the loop and is the caller's -/
+def addMany : W → Nat → List Ref → W × Out
+  | w, _, [] => (w, .unit)
+  | w, k, r :: rs =>
+    match add w k r with
+    | (w', .unit) => addMany w' k rs
+    | (w', o) => (w', o)
+
 /-! ## B. The write protocol of add()/commit() as a sequence of I/O steps, with faults (C15) -/
 
 inductive Variant where
